@@ -444,6 +444,16 @@ class Frame(Mutable):
             self.vars[key] = val
 
     def set(self, k, v):
+        nl = self.vars.get('$nonlocals')
+        if nl and k in nl:
+            # `nonlocal k`: the assignment rebinds the variable of the nearest enclosing function that has it
+            f = self.parent
+            while f is not None and '$module' not in f.vars:
+                if k in f.vars:
+                    f._write(k, v)
+                    return
+                f = f.parent
+            raise Unsupported('nonlocal %s without an enclosing binding' % k)
         g = self.vars.get('$globals')
         if g and k in g:
             # `global k` in this function: the assignment rebinds the module-level variable
